@@ -24,6 +24,11 @@ fn approval_key(source_chain: &String, message_id: &String) -> DataKey {
 fn spec_approval(env: &Env, m: &Message) -> MessageApprovalValue {
     MessageApprovalValue::Approved(env.crypto().keccak256(&m.clone().to_xdr(env)).into())
 }
+/// structural equality of two records on their host representation — NOT the repository's own
+/// `PartialEq` for the type (which is part of the code under verification)
+fn same_status(a: &MessageApprovalValue, b: &MessageApprovalValue) -> bool {
+    Words::of(a) == Words::of(b)
+}
 fn status_pre(k: &DataKey) -> MessageApprovalValue {
     pers().pre::<_, MessageApprovalValue>(k).unwrap_or(MessageApprovalValue::NotApproved)
 }
@@ -58,6 +63,29 @@ fn c13_call_contract() {
     kani::cover!(true, "COVER c13 returned");
 }
 
+/// BOUNDED companion of `c13_call_contract`: the destination chain is a string whose *bytes* are
+/// symbolic (length 2) instead of an abstract identity, so code that looks into the text
+/// (case folding, trimming, re-building the string from a buffer) is decided as well.
+#[kani::proof]
+fn c13_call_contract_text_len2_bounded() {
+    let env = Env::default();
+    let _h = shim::fresh_host();
+    let caller = Address::symbolic();
+    let cb: [u8; 2] = [kani::any(), kani::any()];
+    let chain = String::with_content(&cb);
+    let dest = sym_string();
+    let payload = Bytes::symbolic();
+
+    AxelarGateway::call_contract(env.clone(), caller.clone(), chain.clone(), dest.clone(), payload.clone());
+
+    let hash: BytesN<32> = env.crypto().keccak256(&payload).into();
+    soroban_sdk::obl!(
+        shim::n_events() == 1 && shim::event_is(0, &(Symbol::new(&env, "contract_called"), caller.clone(), chain, dest, hash), &payload),
+        "OBL C13.one_exact_announcement_text: the announced destination chain is byte for byte the one passed in (a string of 2 arbitrary bytes)"
+    );
+    kani::cover!(cb[0] == b'A' && cb[1] == 0, "COVER c13 text upper case and NUL");
+}
+
 // ------------------------------------------------------------------------------------------------
 // C02  validate_message / is_message_approved / is_message_executed
 // ------------------------------------------------------------------------------------------------
@@ -76,12 +104,12 @@ fn c02_validate_message() {
     let expected = spec_approval(&env, &msg);
     let before = status_pre(&k);
     soroban_sdk::obl!(
-        r == (before == expected),
+        r == same_status(&before, &expected),
         "OBL C02.consume_iff_exact_approval: true exactly when the record is Approved(hash of the message with contract_address = caller, same source address and payload hash)"
     );
     if r {
         soroban_sdk::obl!(shim::authed(&caller), "OBL C02.consumer_authorised: a message is consumed only for the address that authorised the call");
-        soroban_sdk::obl!(status_post(&k) == MessageApprovalValue::Executed, "OBL C02.consumed_marks_executed");
+        soroban_sdk::obl!(same_status(&status_post(&k), &MessageApprovalValue::Executed), "OBL C02.consumed_marks_executed");
         soroban_sdk::obl!(
             shim::n_events() == 1 && shim::event_is(0, &(Symbol::new(&env, "message_executed"), msg.clone()), &()),
             "OBL C02.one_executed_event"
@@ -90,9 +118,9 @@ fn c02_validate_message() {
         kani::cover!(true, "COVER c02_validate consumed");
     } else {
         soroban_sdk::obl!(shim::no_effects(), "OBL C02.refused_consume_no_effect");
-        kani::cover!(before == MessageApprovalValue::Executed, "COVER c02_validate already executed");
-        kani::cover!(before == MessageApprovalValue::NotApproved, "COVER c02_validate not approved");
-        kani::cover!(before != MessageApprovalValue::NotApproved && before != MessageApprovalValue::Executed, "COVER c02_validate approved for something else");
+        kani::cover!(same_status(&before, &MessageApprovalValue::Executed), "COVER c02_validate already executed");
+        kani::cover!(same_status(&before, &MessageApprovalValue::NotApproved), "COVER c02_validate not approved");
+        kani::cover!(!same_status(&before, &MessageApprovalValue::NotApproved) && !same_status(&before, &MessageApprovalValue::Executed), "COVER c02_validate approved for something else");
     }
 }
 
@@ -105,7 +133,7 @@ fn c02_is_message_approved() {
     let r = AxelarGateway::is_message_approved(env.clone(), m.source_chain.clone(), m.message_id.clone(), m.source_address.clone(), m.contract_address.clone(), m.payload_hash);
 
     let k = approval_key(&m.source_chain, &m.message_id);
-    soroban_sdk::obl!(r == (status_pre(&k) == spec_approval(&env, &m)), "OBL C02.query_approved_agrees: the approved query agrees with the stored record");
+    soroban_sdk::obl!(r == same_status(&status_pre(&k), &spec_approval(&env, &m)), "OBL C02.query_approved_agrees: the approved query agrees with the stored record");
     soroban_sdk::obl!(shim::no_effects() && shim::n_auth() == 0, "OBL C02.query_approved_pure");
     kani::cover!(r, "COVER c02_is_approved true");
     kani::cover!(!r, "COVER c02_is_approved false");
@@ -120,7 +148,7 @@ fn c02_is_message_executed() {
     let r = AxelarGateway::is_message_executed(env.clone(), sc.clone(), mid.clone());
 
     let k = approval_key(&sc, &mid);
-    soroban_sdk::obl!(r == (status_pre(&k) == MessageApprovalValue::Executed), "OBL C02.query_executed_agrees: the executed query agrees with the stored record");
+    soroban_sdk::obl!(r == same_status(&status_pre(&k), &MessageApprovalValue::Executed), "OBL C02.query_executed_agrees: the executed query agrees with the stored record");
     soroban_sdk::obl!(shim::no_effects() && shim::n_auth() == 0, "OBL C02.query_executed_pure");
     kani::cover!(r, "COVER c02_is_executed true");
     kani::cover!(!r, "COVER c02_is_executed false");
@@ -181,7 +209,7 @@ fn approve_case(n: usize) -> (bool, bool, bool) {
                     }
                     j += 1;
                 }
-                fresh[k] = cur == MessageApprovalValue::NotApproved;
+                fresh[k] = same_status(&cur, &MessageApprovalValue::NotApproved);
                 after[k] = if fresh[k] { spec_approval(&env, &ms[k]) } else { cur };
                 k += 1;
             }
@@ -197,7 +225,7 @@ fn approve_case(n: usize) -> (bool, bool, bool) {
                     }
                     j += 1;
                 }
-                if last && status_post(&keys[k]) != after[k] {
+                if last && !same_status(&status_post(&keys[k]), &after[k]) {
                     state_ok = false;
                 }
                 k += 1;
@@ -315,6 +343,10 @@ fn c03_rotate_signers_entry() {
             "OBL C09.enforce_is_not_bypass: the set is installed through auth::rotate_signers, once, with enforce_rotation_delay == !bypass"
         );
         soroban_sdk::obl!(wf(&signers), "OBL C03.entry_installs_wellformed_only");
+        soroban_sdk::obl!(
+            matches!(unsafe { crate::auth::verif::RS_RESULT }, Some(Ok(()))),
+            "OBL C03.entry_propagates_refusal: the entry point succeeds only if auth::rotate_signers installed the set; its refusal (which may leave the epoch already advanced, for the host to roll back) is returned, never swallowed"
+        );
         kani::cover!(bypass, "COVER c03_entry ok bypass");
         kani::cover!(!bypass, "COVER c03_entry ok latest");
     } else {
@@ -469,4 +501,64 @@ fn c03_lookup_views() {
     );
     soroban_sdk::obl!(shim::no_effects() && shim::n_auth() == 0, "OBL C03.lookup_views_pure");
     kani::cover!(r_by_hash.is_ok() && r_by_epoch.is_err(), "COVER lookup views mixed");
+}
+
+// ------------------------------------------------------------------------------------------------
+// C01  Proof::weighted_signers — BOUNDED companion (3 entries) of the Verus contract
+// `C01.weighted_signers.*` (any length): the set a proof is checked against is, entry by entry, the
+// list of signers the proof names — nothing dropped, merged or reordered — so the signatures that are
+// counted (validate_signatures walks proof.signers) are signatures of members of the looked-up set.
+// ------------------------------------------------------------------------------------------------
+#[kani::proof]
+fn c01_weighted_signers_n3_bounded() {
+    use crate::types::ProofSigner;
+    let env = Env::default();
+    let _h = shim::fresh_host();
+    let ps: [ProofSigner; 3] = [<ProofSigner as Wordy>::symbolic(), <ProofSigner as Wordy>::symbolic(), <ProofSigner as Wordy>::symbolic()];
+    let mut v: Vec<ProofSigner> = Vec::new(&env);
+    v.push_back(ps[0].clone());
+    v.push_back(ps[1].clone());
+    v.push_back(ps[2].clone());
+    let proof = Proof { signers: v, threshold: kani::any(), nonce: BytesN::symbolic() };
+
+    let ws = proof.weighted_signers();
+
+    let same = |i: u32| match ws.signers.get(i) {
+        Some(s) => Words::of(&s) == Words::of(&ps[i as usize].signer),
+        None => false,
+    };
+    soroban_sdk::obl!(
+        ws.signers.len() == 3 && same(0) && same(1) && same(2),
+        "OBL C01.weighted_signers_entrywise: the signer set derived from a proof lists exactly the proof's signers, one per entry, in order (also when entries repeat)"
+    );
+    soroban_sdk::obl!(ws.threshold == proof.threshold && ws.nonce == proof.nonce, "OBL C01.weighted_signers_keeps_threshold_and_nonce");
+    soroban_sdk::obl!(shim::no_effects(), "OBL C01.weighted_signers_pure");
+    kani::cover!(Words::of(&ps[0].signer) == Words::of(&ps[1].signer), "COVER c01 weighted_signers repeated entry");
+}
+
+/// shim self-test: the length of a registered content is a constant for the model checker (loops
+/// bounded by it unwind finitely)
+#[kani::proof]
+fn shim_content_len_is_concrete() {
+    let _h = shim::fresh_host();
+    let cb: [u8; 2] = [kani::any(), kani::any()];
+    let s = String::with_content(&cb);
+    let n = shim::content_len(s.id);
+    let mut i = 0;
+    let mut c = 0u32;
+    while i < n {
+        c += 1;
+        i += 1;
+    }
+    assert!(n == 2 && c == 2 && s.len() == 2);
+    // a round trip through a buffer gives back the same identity; changed bytes give another one
+    let env = Env::default();
+    let mut b2 = [0u8; 32];
+    let m = s.len() as usize;
+    s.copy_into_slice(&mut b2[..m]);
+    assert!(b2[0] == cb[0] && b2[1] == cb[1]);
+    assert!(String::from_bytes(&env, &b2[..m]) == s);
+    b2[..m].make_ascii_lowercase();
+    let t = String::from_bytes(&env, &b2[..m]);
+    assert!((t == s) == (!cb[0].is_ascii_uppercase() && !cb[1].is_ascii_uppercase()));
 }
